@@ -57,7 +57,7 @@ def run(rep, tier, seed):
                          cassettes=('memory',), n_conc=1, sample=3000, cap=6000)
             rep.exhaustive = bool(ex)
         else:
-            chk.check('chk', gen_consts(4, Threads=[0, 1], OutAliases=['oa1', 'oa2']), invariants=INVS, timeout=3000)
+            chk.check('chk', gen_consts(4, OutAliases=['oa1', 'oa2']), invariants=INVS, timeout=3000)
             ex = chk.generate('gen2', gen_consts(2), cassettes=('memory', 'file'), n_conc=4, all_paths=True)
             chk.generate('gen3', gen_consts(3), cassettes=('memory',), n_conc=2, all_paths=True, cap=300000)
             rep.exhaustive = bool(ex)
